@@ -20,7 +20,7 @@ EVENT  = `["tick",now,rand] | ["rv",from,term,lastIdx,lastTerm,now,rand] | ["vot
           | ["nni",from,term|null,reset01,next,success01,now] | ["conn",n] | ["disc",n] | ["roconn",n] | ["rodisc",n]`
 OUTPUT = `["rv",dst,term,li,lt] | ["resp",dst,term] | ["sc",old,new] | ["cb",idx,cb,RES,err] | ["exec",pos,id]
           | ["ver",old,new] | ["add",n] | ["drop",n] | ["send"] | ["ready"] | ["keyError"]`
-RES    = `null | ["ok",n] | ["raised",id]`; err = FAIL_REASON number (0 SUCCESS, 3 DISCARDED, 5 LEADER_CHANGED).
+RES    = `null | ["ok",n] | ["raised",id] | ["lowerver",v]`; err = FAIL_REASON number (0 SUCCESS, 3 DISCARDED, 5 LEADER_CHANGED).
 Sets and dicts of the post-state are printed sorted by key.
 -/
 namespace Driver.NodeTick
@@ -128,6 +128,7 @@ def res : Res → Json
   | .none => Json.null
   | .ok n => Json.arr #[str "ok", nat n]
   | .raised i => Json.arr #[str "raised", nat i]
+  | .lowerVersion v => Json.arr #[str "lowerver", nat v]
 
 def fail : Fail → Json
   | .success => nat 0
